@@ -19,6 +19,15 @@ func buildPoolsGen(r *gen.Rng, s *Session) {
 	}
 	for i, f := range p.FaultySchema {
 		s.Schemas = append(s.Schemas, NamedText{fmt.Sprintf("gen-faulty%d.graphql", i), f})
+		if len(p.FaultyCuts[i]) > 0 && r.Chance(1, 3) {
+			// the faulty variant arrives in several files, each starting with a
+			// faulty definition, all under one name
+			for len(s.Splits) < len(s.Schemas) {
+				s.Splits = append(s.Splits, nil)
+			}
+			s.Splits[len(s.Schemas)-1] = p.FaultyCuts[i]
+			s.SplitSameName = true
+		}
 	}
 	s.Docs = p.Docs
 }
